@@ -65,16 +65,24 @@ def _const(c):
 
 
 def _sparse(spec):
+    """The scipy matrix of a spec.  Format "csr" is assembled directly from the row lists
+    (entries stay in the order given: indices may be unsorted and repeated), "csr_canon" /
+    "csc" / "coo" go through coo (csr_canon, csc: sorted, duplicates summed)."""
     n, m = spec["shape"]
     rows, cols, data = [], [], []
+    indptr = [0]
     for i, row in enumerate(spec["rows"]):
         for j, a in row:
             rows.append(i)
             cols.append(j)
             data.append(float(a))
-    A = sps.coo_matrix((data, (rows, cols)), shape=(n, m))
+        indptr.append(len(cols))
     fmt = spec.get("fmt", "csr")
-    return {"csr": A.tocsr, "csc": A.tocsc, "coo": lambda: A}[fmt]()
+    if fmt == "csr":
+        return sps.csr_matrix((np.array(data, dtype=float), np.array(cols, dtype=np.int32),
+                               np.array(indptr, dtype=np.int32)), shape=(n, m))
+    A = sps.coo_matrix((data, (rows, cols)), shape=(n, m))
+    return {"csr_canon": A.tocsr, "csc": A.tocsc, "coo": lambda: A}[fmt]()
 
 
 def _key(k):
@@ -415,20 +423,56 @@ class Gen:
         return ["a", [dy(r, lo, hi, 8, nonzero) for _ in range(n)]]
 
     def sparse(self, n, m):
+        """Coefficient matrix n x m.  Modes: general dyadic, general integer, 0/1 selection
+        (one 1 per row), 0/1 summation (several ones per row, empty rows), and 0/1
+        matrices whose number of stored entries EQUALS the number of rows although some row
+        is empty and another holds several ones (looks like a restriction, is not)."""
         r = self.rng
+        mode = r.choice(["dyadic", "dyadic", "int", "select", "select", "sum01", "sum01",
+                         "nnz_eq_rows", "nnz_eq_rows"])
         rows = []
-        for i in range(n):
-            row = []
-            if r.random() < 0.15:
-                rows.append(row)           # empty row
-                continue
-            for j in range(m):
-                if r.random() < 0.6:
-                    row.append([j, dy(r, -2, 2, 4)])     # explicit zeros possible
-            if row and r.random() < 0.1:
-                row.append([row[0][0], dy(r, -2, 2, 4)])  # duplicate entry
-            rows.append(row)
-        return {"shape": [n, m], "rows": rows, "fmt": r.choice(["csr", "csc", "coo"])}
+        if mode in ("dyadic", "int"):
+            for i in range(n):
+                row = []
+                if r.random() < 0.15:
+                    rows.append(row)           # empty row
+                    continue
+                for j in range(m):
+                    if r.random() < 0.6:       # explicit zeros possible
+                        row.append([j, dy(r, -2, 2, 4) if mode == "dyadic" else r.randint(-3, 3)])
+                if row and r.random() < 0.15:
+                    row.append([row[0][0], dy(r, -2, 2, 4) if mode == "dyadic" else r.randint(-3, 3)])
+                rows.append(row)
+        elif mode == "select":
+            for i in range(n):
+                rows.append([[r.randrange(m), 1.0]])
+            if r.random() < 0.2:
+                rows[r.randrange(n)] = []      # nnz = rows - 1
+        elif mode == "sum01":
+            for i in range(n):
+                k = r.choice([0, 1, 1, 2, 2, 3])
+                cols = [r.randrange(m) for _ in range(k)] if r.random() < 0.2 else \
+                    r.sample(range(m), min(k, m))           # 20%: repeated columns allowed
+                rows.append([[j, 1.0] for j in cols])
+        else:
+            # total number of ones == n, distributed unevenly when n >= 2
+            counts = [1] * n
+            if n >= 2:
+                for _ in range(r.randint(1, n - 1)):
+                    src = r.choice([i for i in range(n) if counts[i] > 0])
+                    dst = r.choice([i for i in range(n) if i != src])
+                    counts[src] -= 1
+                    counts[dst] += 1
+            for i in range(n):
+                k = counts[i]
+                cols = r.sample(range(m), k) if k <= m and r.random() < 0.8 else \
+                    [r.randrange(m) for _ in range(k)]
+                rows.append([[j, 1.0] for j in cols])
+        for row in rows:
+            if r.random() < 0.5:
+                r.shuffle(row)                 # unsorted column indices within a row
+        fmt = r.choice(["csr", "csr", "csr", "csr_canon", "csc", "coo"])
+        return {"shape": [n, m], "rows": rows, "fmt": fmt, "mode": mode}
 
     def key(self, n, m):
         """A key selecting n entries out of m."""
@@ -524,7 +568,7 @@ class Gen:
             return ["neg", sub()]
         if x < 0.65 and self.nmat < 3:
             self.nmat += 1
-            m = r.randint(1, 4)
+            m = r.randint(1, 4) if r.random() < 0.5 else r.randint(min(n + 1, 4), 4)
             return ["matmul", self.sparse(n, m), self.tree(m, d - 1)]
         if x < 0.71:
             m = r.randint(n, 4) if n <= 4 else n
@@ -604,6 +648,23 @@ DIRECTED = [
     {"kind": "rat", "vars": [[1.0, 2.0, 3.0], [4.0, 5.0]],
      "tree": ["matmul", {"shape": [2, 3], "rows": [[[0, 1.0], [2, -1.0]], [[1, 0.5]]], "fmt": "csc"},
               ["div", ["var", 0], ["addk", ["var", 0], ["s", 1.0]]]]},
+    # 0/1 matrices: restriction (one 1 per row, unsorted), aggregation with an empty row and
+    # a row of two ones (stored entries == rows, wide), tall and square sums, duplicates
+    {"kind": "rat", "vars": [[1.0, 2.0, 3.0], [4.0, 5.0]],
+     "tree": ["matmul", {"shape": [2, 3], "rows": [[[2, 1.0]], [[0, 1.0]]], "fmt": "csr"}, ["var", 0]]},
+    {"kind": "rat", "vars": [[1.0, 2.0, 3.0], [4.0, 5.0]],
+     "tree": ["matmul", {"shape": [2, 3], "rows": [[], [[2, 1.0], [0, 1.0]]], "fmt": "csr"}, ["var", 0]]},
+    {"kind": "rat", "vars": [[1.0, 2.0, 3.0], [4.0, 5.0]],
+     "tree": ["matmul", {"shape": [2, 3], "rows": [[[0, 1.0], [1, 1.0]], []], "fmt": "csr_canon"},
+              ["mul", ["var", 0], ["var", 0]]]},
+    {"kind": "rat", "vars": [[1.0, 2.0, 3.0, -1.0], [4.0, 5.0]],
+     "tree": ["matmul", {"shape": [3, 4], "rows": [[[1, 1.0], [3, 1.0], [0, 1.0]], [], []], "fmt": "csr"}, ["var", 0]]},
+    {"kind": "rat", "vars": [[1.0, 2.0, 3.0], [4.0, 5.0]],
+     "tree": ["matmul", {"shape": [2, 3], "rows": [[[1, 1.0], [1, 1.0]], []], "fmt": "csr"}, ["var", 0]]},
+    {"kind": "rat", "vars": [[1.0, 2.0, 3.0], [4.0, 5.0]],
+     "tree": ["matmul", {"shape": [3, 2], "rows": [[[0, 1.0], [1, 1.0]], [[1, 1.0]], []], "fmt": "csc"}, ["var", 1]]},
+    {"kind": "rat", "vars": [[1.0, 2.0, 3.0], [4.0, 5.0]],
+     "tree": ["matmul", {"shape": [2, 2], "rows": [[[0, 1.0], [1, 1.0]], []], "fmt": "coo"}, ["var", 1]]},
     # maximum: both orders, constants, tie excluded; abs / heaviside / characteristic
     {"kind": "rat", "vars": [[1.0, 2.0, 3.0], [2.5, 0.5, 4.0]],
      "tree": ["max", ["mul", ["var", 0], ["var", 0]], ["var", 1]]},
@@ -913,8 +974,9 @@ class C01(Prop):
         "safe_power is outside the property's list).  The Jacobian theorem is stated per direction "
         "(entry (i,j) = partial derivative); Frechet differentiability is not stated.")
     rule = ("70% trees of the rational fragment (+ - * /, integer **, neg, scalar/int/array operands, all "
-            "reflected variants, sparse left products with empty rows/explicit zeros/duplicates in "
-            "csr/csc/coo, row slicing by int/slice/index array, abs, heaviside, characteristic, maximum) "
+            "reflected variants, sparse left products (general dyadic / integer matrices and 0/1 selection, "
+            "summation, stored-entries==rows-but-not-a-restriction matrices; wide/square/tall, empty rows, "
+            "explicit zeros, duplicates, unsorted indices, raw csr/canonical csr/csc/coo), row slicing by int/slice/index array, abs, heaviside, characteristic, maximum) "
             "-> Coq tie (a) + oracle; 30% trees that also contain transcendental functions, real powers, "
             "AdArray**AdArray, c**AdArray, l2_norm -> oracle; depth <= 4 (quick) / 5 (thorough), 1-3 "
             "variables of size 1-4, dyadic data; a directed list of corner trees is always included; "
